@@ -541,6 +541,17 @@ func propC15(r *Run) {
 	r.count(fmt.Sprintf("records/small-scope/isoforms=%d", iso))
 	r.exhaustive = thorough
 
+	// several records per input file (props_c15_multi.go)
+	{
+		var pool []gts.Sequence
+		for _, rc := range records {
+			if rc.name == "generated" {
+				pool = append(pool, rc.seq)
+			}
+		}
+		c15MultiRecords(r, pool)
+	}
+
 	var cases []c15Case
 	perRecord := 10
 	if thorough {
